@@ -204,7 +204,7 @@ class SparseMLPModel(MLPModel):
         return np.linalg.norm(self.W_skip_, axis=1, ord=2).sum()
 
     def fit(self, X, y=None):
-        validate_data(self, X)
+        X = validate_data(self, X)
         self.groups_ = check_groups(self.groups, X.shape[1])  # Intercept to check that group forms a partition
         return super().fit(X, y)
 
